@@ -199,8 +199,8 @@ def run_case(case):
                     break
         # batch vs single rows for the public methods
         sel = [i for i in range(0, len(probes), 5) if i not in ties]
-        p1 = numpy.vstack([m.predict_proba(probes[i:i + 1]) for i in sel])
-        if numpy.abs(p1 - proba[sel]).max() > 1e-9:
+        p1 = numpy.vstack([m.predict_proba(probes[i:i + 1]) for i in sel]) if sel else numpy.zeros((0, 2))
+        if sel and numpy.abs(p1 - proba[sel]).max() > 1e-9:
             bad("predict_proba batch != single row", desc)
     return {"viol": viol, "nontrivial": ntriv > 0, "states": cnt, "transitions": cnt * len(probes),
             "outcome": tuple(sorted(shapes)), "counters": {"trees_with_children": ntriv}}
